@@ -1,5 +1,5 @@
 from typing import Callable, Optional, SupportsFloat
-from sympy import Expr, Pow, Derivative, Abs, Mul, Add, Function as SymFunction, sympify
+from sympy import Expr, Pow, Derivative, Abs, Mul, Add, Function as SymFunction, nsimplify, sympify
 from sympy.functions.elementary.miscellaneous import MinMaxBase
 from sympy.physics.units import Quantity as SymQuantity, Dimension
 from sympy.physics.units.prefixes import Prefix
@@ -46,7 +46,10 @@ def _collect_pow(expr: Pow) -> tuple[Expr, Dimension]:
     (exp_factor, exp_dim) = collect_quantity_factor_and_dimension(expr.exp)
 
     if is_any_dimension(exp_factor) or dimsys_SI.is_dimensionless(exp_dim):
-        return (base_factor**exp_factor, base_dim**exp_factor)
+        # NOTE: float exponent is kept in the value, but dimensions with float and rational
+        # exponents do not compare as equivalent, eg `length**2.0` and `length**2`
+        dim_exp = nsimplify(exp_factor, rational=True) if exp_factor.is_Float else exp_factor
+        return (base_factor**exp_factor, base_dim**dim_exp)
 
     raise ValueError(f"Dimension of '{expr.exp}' is {exp_dim}, but it should be dimensionless")
 
